@@ -1,11 +1,13 @@
 package checks
 
 import (
+	"bytes"
 	"fmt"
 
 	"github.com/cosmos/iavl"
 
 	"verif/internal/fw"
+	"verif/internal/model"
 	"verif/internal/seam"
 	"verif/internal/v1x"
 )
@@ -95,6 +97,122 @@ type treeAPI interface {
 	GetImmutable(version int64) (*iavl.ImmutableTree, error)
 }
 
+// c14ExplicitZero: the initial version is configured EXPLICITLY as 0 (InitialVersionOption(0) or
+// SetInitialVersion(0)): the first commit is version 0 and the following ones must be numbered
+// 1, 2, 3, ... Nothing is asked about version 0 itself (the library treats 0 as "no version" in
+// several places); every version from 1 on must be available with its own contents and hash, on
+// the live handle and after reopening, and the next commit after reopening continues the numbering.
+func c14ExplicitZero(c *fw.Ctx) {
+	rng := c.Rng
+	st := seam.NewMemStore()
+	cache := []int{0, 3, 1000}[rng.Intn(3)]
+	fast := rng.Intn(2) == 0
+	var t *iavl.MutableTree
+	how := "InitialVersionOption(0)"
+	if rng.Intn(2) == 0 {
+		t = iavl.NewMutableTree(st, cache, !fast, iavl.NewNopLogger(), iavl.InitialVersionOption(0))
+	} else {
+		how = "SetInitialVersion(0)"
+		t = iavl.NewMutableTree(st, cache, !fast, iavl.NewNopLogger())
+		t.SetInitialVersion(0)
+	}
+	if rng.Intn(2) == 0 {
+		if _, err := t.Load(); err != nil {
+			c.Violate(0, "book|explicit-zero|load", "Load() on the empty store: %v", err)
+			return
+		}
+		how += "+Load()"
+	}
+	c.Res.Digest = fw.DigestOf("explicit-zero", c.Index)
+	cur := model.Snap{}
+	snaps := map[int64]model.Snap{}
+	hashes := map[int64][]byte{}
+	n := int64(3 + rng.Intn(5))
+	hist := fmt.Sprintf("[%s cache=%d fast=%v]", how, cache, fast)
+	check := func(h *iavl.MutableTree, where string, latest int64) bool {
+		if l, err := h.GetLatestVersion(); err != nil || l != latest {
+			c.Violate(int(latest), "book|explicit-zero|latest", "%s %s: GetLatestVersion()=(%d,%v), want %d", hist, where, l, err, latest)
+			return false
+		}
+		if h.VersionExists(latest + 1) {
+			c.Violate(int(latest), "book|explicit-zero|versionexists", "%s %s: VersionExists(%d) beyond the latest version %d", hist, where, latest+1, latest)
+			return false
+		}
+		av := h.AvailableVersions()
+		for v := int64(1); v <= latest; v++ {
+			if !h.VersionExists(v) {
+				c.Violate(int(v), "book|explicit-zero|versionexists", "%s %s: VersionExists(%d)=false after commits 0..%d (AvailableVersions()=%v)", hist, where, v, latest, av)
+				return false
+			}
+			it, err := h.GetImmutable(v)
+			if err != nil {
+				c.Violate(int(v), "book|explicit-zero|getimmutable", "%s %s: GetImmutable(%d): %v (AvailableVersions()=%v)", hist, where, v, err, av)
+				return false
+			}
+			if !bytes.Equal(it.Hash(), hashes[v]) || int(it.Size()) != len(snaps[v]) {
+				c.Violate(int(v), "book|explicit-zero|contents", "%s %s: version %d has hash %x size %d, its commit returned %x and it holds %d keys", hist, where, v, it.Hash(), it.Size(), hashes[v], len(snaps[v]))
+				return false
+			}
+			for k, want := range snaps[v] {
+				if got, err := it.Get([]byte(k)); err != nil || string(got) != want {
+					c.Violate(int(v), "book|explicit-zero|contents", "%s %s: version %d Get(%q)=(%q,%v), want %q", hist, where, v, k, got, err, want)
+					return false
+				}
+			}
+			c.Obs("version_queries", 1)
+		}
+		if int64(len(av)) < latest {
+			c.Violate(int(latest), "book|explicit-zero|available", "%s %s: AvailableVersions()=%v after commits 0..%d", hist, where, av, latest)
+			return false
+		}
+		for i := int64(0); i < latest; i++ {
+			if int64(av[len(av)-1-int(i)]) != latest-i {
+				c.Violate(int(latest), "book|explicit-zero|available", "%s %s: AvailableVersions()=%v after commits 0..%d", hist, where, av, latest)
+				return false
+			}
+		}
+		return true
+	}
+	for v := int64(0); v <= n; v++ {
+		for j := 0; j < 1+rng.Intn(3); j++ {
+			k := fmt.Sprintf("k%d", rng.Intn(6))
+			if _, ok := cur[k]; ok && rng.Intn(3) == 0 {
+				t.Remove([]byte(k))
+				delete(cur, k)
+			} else {
+				val := fmt.Sprintf("v%d-%d", v, j)
+				t.Set([]byte(k), []byte(val))
+				cur[k] = val
+			}
+		}
+		hash, ver, err := t.SaveVersion()
+		if err != nil || ver != v {
+			c.Violate(int(v), "book|explicit-zero|numbering", "%s commit number %d returned version %d, err %v: commits are numbered consecutively from the configured initial version 0", hist, v+1, ver, err)
+			return
+		}
+		snaps[v] = cur.Clone()
+		hashes[v] = hash
+		if !check(t, "live", v) {
+			return
+		}
+		c.Obs("commits_after_an_explicit_initial_version_0", 1)
+	}
+	t2 := iavl.NewMutableTree(st, cache, !fast, iavl.NewNopLogger())
+	if l, err := t2.Load(); err != nil || l != n {
+		c.Violate(int(n), "book|explicit-zero|reopen", "%s Load() after reopening = (%d,%v), want %d", hist, l, err, n)
+		return
+	}
+	if !check(t2, "reopened", n) {
+		return
+	}
+	t2.Set([]byte("after-reopen"), []byte("x"))
+	if _, ver, err := t2.SaveVersion(); err != nil || ver != n+1 {
+		c.Violate(int(n), "book|explicit-zero|numbering", "%s the commit after reopening returned version %d, err %v, want %d", hist, ver, err, n+1)
+		return
+	}
+	c.Res.Nontrivial = true
+}
+
 func init() {
 	fw.Register(&fw.Check{
 		ID:    "C14",
@@ -103,9 +221,14 @@ func init() {
 		Rule: "case = one history (10-45 ops quick, up to 100 thorough) rich in commits without writes, empty and one-leaf trees, pruning, rollbacks to a version, reopenings at the latest or an OLDER version followed by re-commits (identical and different writes), initial version unset/1/5/63/64/1000000, invalid version arguments (12%). " +
 			"After every step: commit numbering vs model; for every v in {0,1,first-2..latest+1}: VersionExists, AvailableVersions membership, GetImmutable, GetLatestVersion, GetVersioned outside the range, all on the live handle AND on a freshly opened handle (reopen), plus LoadVersion(v) on a fresh handle; a re-commit of an existing version number must succeed iff the reference tree R says the root hash is identical, a rejected re-commit or rejected deletion must leave the raw store byte-identical, and after every rejected request (load of a missing version, rollback to one, different re-commit, deletion of the latest) the same handle must answer the full model read battery of its working state incl. uncommitted writes (\"leaves the tree usable\") and goes on with the history. " +
 			"Every 6th case runs with background pruning (AsyncPruningOption, SetCommitting/UnsetCommitting around commits, only valid requests, no reopen operations): after each DeleteVersionsTo the executor waits (bounded) until the pruning goroutine has taken the versions out of the range; from then on - while the deletions are still pending in the batch and the roots still in the store - every range API of that handle must agree with the model, LoadVersion of each removed version on that handle must fail and leave it where it was with its working state readable; fresh-handle comparisons wait for the next commit. " +
+			"Every 40th case configures the initial version EXPLICITLY as 0 (InitialVersionOption(0) or SetInitialVersion(0), with or without an initial Load()): 4-9 commits must be numbered 0,1,2,..., every version from 1 on must be available (VersionExists, AvailableVersions, GetImmutable with the hash its commit returned and its contents, GetLatestVersion), also after reopening, and the commit after reopening continues the numbering (nothing is asked about version 0 itself). " +
 			"Every 5th case uses its first handle without an initial Load(): a prefix of 3-6 operations writes to the fresh tree, then issues LoadVersion on the store that still has no version (nothing is loaded, the working tree is kept), with or without a Rollback after it, and the planned history follows. distinct = hash(config, ops); non-trivial = >=3 commits and >=1 of {prune, rollback-to-version, load of an older version, re-commit of an existing version}.",
 		Assumptions: []string{"model M for the version range; reference tree R decides whether a re-commit is identical", "LoadVersion(v<=0) means 'latest' (library convention)"},
 		Run: func(c *fw.Ctx) {
+			if c.Index%40 == 39 {
+				c14ExplicitZero(c)
+				return
+			}
 			w := map[string]int{"set": 26, "rm": 10, "save": 30, "rollback": 3, "reopen": 8, "load": 8, "delto": 9, "lfo": 4, "delfrom": 2, "redo": 4}
 			p := &v1x.GenParams{MinOps: 10, MaxOps: 45, W: w, MaxKeys: 5, InvalidPct: 12,
 				Backends: []string{"mem"}, Initials: []int64{0, 0, 0, 1, 5, 63, 64, 1000000}}
@@ -250,7 +373,7 @@ func init() {
 			c.Res.Nontrivial = saves >= 3 && special >= 1
 		},
 		Floor: func(obs map[string]int, evals, nontrivial int) string {
-			if obs["version_queries"] < 10000 || obs["recommit_identical"] < 5 || obs["recommit_different_rejected"] < 5 || obs["rejected_requests"] < 20 || obs["usable_after_rejected_checks"] < 20 || obs["cold_handle_commits_rejected"] < 20 || obs["loads_of_versions_pruned_in_the_background_rejected"] < 20 {
+			if obs["version_queries"] < 10000 || obs["recommit_identical"] < 5 || obs["recommit_different_rejected"] < 5 || obs["rejected_requests"] < 20 || obs["usable_after_rejected_checks"] < 20 || obs["cold_handle_commits_rejected"] < 20 || obs["loads_of_versions_pruned_in_the_background_rejected"] < 20 || obs["commits_after_an_explicit_initial_version_0"] < 20 {
 				return fmt.Sprintf("too few observations: %v", obs)
 			}
 			return ""
